@@ -183,9 +183,20 @@ def corpus_cases():
     return out
 
 
+def lying_witnesses():
+    """>= 2 tensors, a non-last one with a size that is not a multiple of the alignment, written through WriterTo's that return 0 / n-1"""
+    out = []
+    for lie in ("zero", "short", "double", "neg"):
+        out.append({"op": "rt", "kv": [], "max_array": -1, "klass": "corpus+lying-writer",
+                    "tensors": [{"name": b"a".hex(), "kind": 0, "shape": ["3"], "data": pat(0, 12).hex(), "lie": lie},
+                                {"name": b"b".hex(), "kind": 1, "shape": ["3", "5"], "data": pat(1, 30).hex(), "lie": lie},
+                                {"name": b"c".hex(), "kind": 0, "shape": ["1"], "data": pat(2, 4).hex(), "lie": lie}]})
+    return out
+
+
 def gen_cases(ctx):
     rng = ctx.rng
-    cases = corpus_cases()
+    cases = corpus_cases() + lying_witnesses()
     n = 200 if ctx.quick() else 6000
     for i in range(n):
         r = rng.random()
@@ -215,6 +226,14 @@ def gen_cases(ctx):
         if klass == "kv-heavy":
             kv += [x for x in gen_kv(rng, None, big) if x["k"] not in {y["k"] for y in kv}]
         ma = rng.choice([-1, -1, -1, 0, 0, 1, 2, 3, 1024, 5000]) if not big else rng.choice([-1, 0, 1024, 1100])
+        if rng.random() < 0.35:
+            # the tensor's io.WriterTo misreports how many bytes it wrote (the convert package's writers all return 0): the layout must depend on the
+            # declared shapes/types only
+            lie = rng.choice(["zero", "zero", "short", "double", "neg"])
+            for t in ts:
+                if rng.random() < 0.8:
+                    t["lie"] = lie
+            klass += "+lying-writer"
         cases.append({"op": "rt", "kv": kv, "tensors": ts, "max_array": ma, "file": rng.random() < 0.08, "klass": klass})
     # concurrent and repeated use of WriteGGUF in ONE process: state shared between calls (pools, caches, scratch buffers) only shows when
     # calls overlap or follow each other.  Every file is judged against ITS OWN input.
